@@ -91,6 +91,10 @@ func genThreshold(r *rng) float64 {
 	}
 }
 
+// the reference values of sizes/output.go in the order of the measurement vector (used only to AIM thresholds
+// at interesting points; the judge takes the reference values from the regenerated table)
+var outputRefValues = []float64{500e3, 250e6, 50e3, 500e3, 10, 1.5e6, 2e9, 50e6, 1000, 1.5e6, 10e9, 10e6, 25e3, 1.001, 25e3, 10, 100, 2000, 50e3, 1e9, 25e3, 100}
+
 var nastyNames = []string{"My Group", "x|y [9]", "a\nb", "tab\there", "quote\"s", "back\\slash", "ünïcödé", "\xff\xfe", "[1]", "", "very long display name that exceeds the column width of the table"}
 
 func numsToHist(v []uint64) sizes.HistorySize {
@@ -175,6 +179,16 @@ func init() {
 				gs = append(gs, hxs(sym)+":"+hxs(name)+":"+tally)
 			}
 			t1, t2 := genThreshold(r), genThreshold(r)
+			if r.coin(1, 4) {
+				// a threshold EXACTLY equal to the level of concern that JSON v2 reports for one of the metrics
+				// (float64(value)/reference): the row must be shown — value/reference >= threshold holds with
+				// equality — however the comparison is spelt (seeded C11y compared value with threshold*reference)
+				k := r.n(len(outputRefValues))
+				t1 = float64(atou(nums[k])) / outputRefValues[k]
+				if r.coin(1, 2) {
+					t2 = math.Nextafter(t1, math.Inf(1))
+				}
+			}
 			return []string{strings.Join(nums, ","), strings.Join(wits, ","), joinOrDash(gs, ","),
 				u(math.Float64bits(t1)), u(math.Float64bits(t2)), strconv.Itoa(r.n(3))}
 		},
